@@ -13,6 +13,7 @@ def can_id(prio, pf, ps, sa, dp=0):
 
 class Rec21:
     P = 'd21'
+    PRE = 0.0          # probability that a pass is pre-empted by the reception of the next pending frame
 
     def __init__(self, repo, rng, nodes):
         """nodes: list of dict(maxcmdt, cmdt(None|us), bam(us), addrs=[accepted destinations])"""
@@ -100,6 +101,22 @@ class Rec21:
             self.dead.add(i)
         return outs
 
+    def tickpre(self, i, K, cid, data, latency, lose=None, tick_lat=0):
+        outs = self.do(f"{self.P}.tickpre {i} {K} {cid} {pyexec.fmt_list(data)}")
+        self.emit(i, outs, latency, lose)
+        last = outs[-1] if outs else ''
+        if last.startswith('wakeup '):
+            d = int(last.split()[1])
+            if 'wake' in outs:
+                self.wake[i] = self.now
+            else:
+                self.wake[i] = self.now + max(d, 1) + tick_lat
+        else:
+            self.dead.add(i)
+        if self.dump_every:
+            self.do(f"{self.P}.dump {i}")
+        return outs
+
     def adv(self, dt):
         if dt > 0:
             self.do(f"adv {dt}")
@@ -136,7 +153,15 @@ class Rec21:
             self.adv(t - self.now)
             if kind == 'rx':
                 _, cid, data = self.fifo[i].pop(0)
-                self.rx(i, cid, data, latency, lose)
+                if self.PRE and i not in self.dead and self.rng.random() < self.PRE / 2:
+                    # the frame arrives while a pass of this stack is under way (a pass may run at any time)
+                    self.tickpre(i, self.rng.choice([0, 0, 1, 1, 2, 3, 5]), cid, data, latency, lose, tick_lat(self.rng))
+                else:
+                    self.rx(i, cid, data, latency, lose)
+            elif self.PRE and self.fifo[i] and self.rng.random() < self.PRE:
+                # the frame that is on its way arrives while the pass is under way
+                _, cid, data = self.fifo[i].pop(0)
+                self.tickpre(i, self.rng.choice([0, 0, 1, 1, 2, 3, 5]), cid, data, latency, lose, tick_lat(self.rng))
             else:
                 self.tick(i, latency, lose, tick_lat(self.rng))
             n += 1
@@ -282,3 +307,15 @@ def lossy_script(rng, repo):
     rec.run(rec.now + 3_000_000, latency, app=app, max_events=800)
     rec.dump_all()
     return rec
+
+
+def preempt_script(rng, repo, cls=None):
+    """nominal / hostile / lossy histories in which passes are pre-empted by the reception of a frame"""
+    cls = cls or Rec21
+    old = cls.PRE
+    cls.PRE = rng.choice([0.3, 0.6, 0.9])
+    try:
+        kind = rng.choice(['nominal', 'nominal', 'hostile', 'lossy'])
+        return dict(nominal=nominal_script, hostile=hostile_script, lossy=lossy_script)[kind](rng, repo)
+    finally:
+        cls.PRE = old
